@@ -11,9 +11,16 @@ set_option linter.constructorNameAsVariable false
 namespace CV.GenStruct
 open CV CV.GenFlat CV.GenReg
 
-/-- equal on X, Y and every memory cell except the scratch cell -/
+/-- a cell of the stack page -/
+def InStack (a : Word) : Prop := ∃ b : Byte, a = Cpu.stackAddr b
+
+/-- the cells the generated code uses for itself: the scratch cell `cctmp` and (since stage 10: `PHA` spills)
+    the stack page -/
+def Scratch (L : Layout) (a : Word) : Prop := a = L "cctmp" ∨ InStack a
+
+/-- equal on X, Y and every memory cell except the compiler's own (scratch cell, stack page) -/
 def EqOff (L : Layout) (σ τ : SrcSt) : Prop :=
-  σ.x = τ.x ∧ σ.y = τ.y ∧ ∀ a, a ≠ L "cctmp" → σ.mem.read a = τ.mem.read a
+  σ.x = τ.x ∧ σ.y = τ.y ∧ ∀ a, ¬ Scratch L a → σ.mem.read a = τ.mem.read a
 
 theorem EqOff.refl (L : Layout) (σ : SrcSt) : EqOff L σ σ := ⟨rfl, rfl, fun _ _ => rfl⟩
 theorem EqOff.symm {L : Layout} {σ τ : SrcSt} (h : EqOff L σ τ) : EqOff L τ σ :=
@@ -43,7 +50,12 @@ def lexprNames : LExpr → List Atom
   | .left e _ y => lexprNames e ++ y.names
   | .right x _ e => x.names ++ lexprNames e
 
+def gexprNames : GExpr → List Atom
+  | .atom a => a.names
+  | .bin l _ r => gexprNames l ++ gexprNames r
+
 def _root_.CV.GenReg.RStmt.names : RStmt → List Atom
+  | .expr v e => v.names ++ gexprNames e
   | .lin v e => v.names ++ lexprNames e
   | .asg v a => v.names ++ a.names
   | .bin v _ a b => v.names ++ a.names ++ b.names
@@ -63,6 +75,7 @@ def Cond.names : Cond → List Atom
 def SStmt.names : SStmt → List Atom
   | .flat s => s.names
   | .skip => []
+  | .forget => []
   | .seq a b => SStmt.names a ++ SStmt.names b
   | .ifThen c t => c.names ++ SStmt.names t
   | .ifElse c t e => c.names ++ SStmt.names t ++ SStmt.names e
@@ -76,12 +89,13 @@ def SStmt.names : SStmt → List Atom
     whatever the register holds (true of every layout that places `cctmp` below the arrays) -/
 def CellOK (L : Layout) : Atom → Prop
   | .const _ => True
-  | .var v => L v ≠ L "cctmp"
-  | .el t (.k n) => L t + BitVec.ofNat 16 n ≠ L "cctmp"
-  | .el t _ => ∀ b : Byte, L t + b.zeroExtend 16 ≠ L "cctmp"
+  | .var v => ¬ Scratch L (L v)
+  | .el t (.k n) => ¬ Scratch L (L t + BitVec.ofNat 16 n)
+  | .el t _ => ∀ b : Byte, ¬ Scratch L (L t + b.zeroExtend 16)
 
-/-- no operand of the program lives in the scratch cell -/
-def NoTmp (L : Layout) (ns : List Atom) : Prop := ∀ a ∈ ns, CellOK L a
+/-- no operand of the program lives in the scratch cell or in the stack page, and the scratch cell is not in
+    the stack page -/
+def NoTmp (L : Layout) (ns : List Atom) : Prop := ¬ InStack (L "cctmp") ∧ ∀ a ∈ ns, CellOK L a
 
 /-! ### the plain reading -/
 
@@ -100,6 +114,7 @@ def linPure (L : Layout) (σ : SrcSt) : LExpr → Byte
   | .right x op e => op.apply (rval L σ x) (linPure L σ e)
 
 def pureSpec (L : Layout) (σ : SrcSt) : RStmt → SrcSt
+  | .expr v e => if e.ok then wr L σ v (pureE L σ e) else σ
   | .lin v e => wr L σ v (linPure L σ e)
   | .chain v a op1 b1 ops => wr L σ v (chainPure L σ (op1.apply (rval L σ a) (rval L σ b1)) ops)
   | .asg v a => wr L σ v (rval L σ a)
@@ -116,6 +131,7 @@ def semPure (L : Layout) : Nat → SrcSt → SStmt → Option Out
   | 0, _, _ => none
   | _ + 1, m, .flat s => some (.norm, pureSpec L m s)
   | _ + 1, m, .skip => some (.norm, m)
+  | _ + 1, m, .forget => some (.norm, m)
   | _ + 1, m, .brk => some (.brk, m)
   | _ + 1, m, .cont => some (.cont, m)
   | _ + 1, m, .ifBrk c => some (if evalCond L m c then .brk else .norm, m)
@@ -163,9 +179,9 @@ theorem rval_eqOff (L : Layout) {σ τ : SrcSt} (h : EqOff L σ τ) (a : RA) (hn
     | const n => rfl
     | var v =>
       simp only [rval, val]
-      exact h.2.2 _ (hn (.var v) (by simp [RA.names, Atom.names]))
+      exact h.2.2 _ (hn.2 (.var v) (by simp [RA.names, Atom.names]))
     | el t i =>
-      have hc := hn (.el t i) (by simp [RA.names, Atom.names])
+      have hc := hn.2 (.el t i) (by simp [RA.names, Atom.names])
       simp only [rval, val]
       rw [h.1, h.2.1]
       cases i with
@@ -199,14 +215,14 @@ theorem tmpWrite_eqOff (L : Layout) (σ : SrcSt) (op : BOp) (y : RA) : EqOff L (
   split
   · refine ⟨rfl, rfl, ?_⟩
     intro a ha
-    have : L "cctmp" ≠ a := fun e => ha e.symm
+    have : L "cctmp" ≠ a := fun e => ha (Or.inl e.symm)
     simp [this]
   · exact EqOff.refl L σ
 
 theorem NoTmp.left {L : Layout} {a b : List Atom} (h : NoTmp L (a ++ b)) : NoTmp L a :=
-  fun v hv => h v (by simp [hv])
+  ⟨h.1, fun v hv => h.2 v (by simp [hv])⟩
 theorem NoTmp.right {L : Layout} {a b : List Atom} (h : NoTmp L (a ++ b)) : NoTmp L b :=
-  fun v hv => h v (by simp [hv])
+  ⟨h.1, fun v hv => h.2 v (by simp [hv])⟩
 
 theorem ra_names_lv (v : LV) : v.ra.names = v.names := by cases v <;> rfl
 
@@ -286,8 +302,8 @@ theorem chainVal_pure (L : Layout) (ops : List (BOp × RA)) {σ τ : SrcSt} (h :
   | nil => exact ⟨rfl, h⟩
   | cons p rest ih =>
     obtain ⟨op, y⟩ := p
-    have hy : NoTmp L y.names := fun a ha => hn a (by simp [ha])
-    have hr : NoTmp L (rest.flatMap fun p => p.2.names) := fun a ha => hn a (by simp at ha ⊢; exact Or.inr ha)
+    have hy : NoTmp L y.names := ⟨hn.1, fun a ha => hn.2 a (by simp [ha])⟩
+    have hr : NoTmp L (rest.flatMap fun p => p.2.names) := ⟨hn.1, fun a ha => hn.2 a (by simp at ha ⊢; exact Or.inr ha)⟩
     simp only [chainVal, chainPure]
     rw [rval_eqOff L h y hy]
     exact ih ((tmpWrite_eqOff L σ op y).trans h) _ hr
@@ -309,7 +325,7 @@ theorem tmpStore_eqOff (L : Layout) (σ : SrcSt) (b : Byte) :
     EqOff L ({ σ with mem := σ.mem.write (L "cctmp") b } : SrcSt) σ := by
   refine ⟨rfl, rfl, ?_⟩
   intro a ha
-  have : L "cctmp" ≠ a := fun e => ha e.symm
+  have : L "cctmp" ≠ a := fun e => ha (Or.inl e.symm)
   simp [this]
 
 theorem linVal_pure (L : Layout) (e : LExpr) {σ τ : SrcSt} (h : EqOff L σ τ) (hn : NoTmp L (lexprNames e)) :
@@ -341,6 +357,277 @@ theorem linVal_pure (L : Layout) (e : LExpr) {σ τ : SrcSt} (h : EqOff L σ τ)
       rw [e1, rval_eqOff L e2 x hx, apply_comm_ne_sub op _ _ hs]
       exact ⟨rfl, (tmpWrite_eqOff L _ op x).trans e2⟩
 
+/-! ### expression trees (stage 10): the spill strategy never loses a live value -/
+
+theorem order_cases (op : BOp) (l rt : ET) : order op l rt = (l, rt) ∨ (order op l rt = (rt, l) ∧ op ≠ .sub) := by
+  unfold order
+  by_cases hs : (op == BOp.sub) = true
+  · simp [hs]
+  · have : op ≠ .sub := by intro e; subst e; simp at hs
+    simp only [hs, if_false, Bool.false_eq_true]
+    split
+    · exact Or.inr ⟨rfl, this⟩
+    · split
+      · exact Or.inr ⟨rfl, this⟩
+      · exact Or.inl rfl
+
+theorem stackAddr_not_tmp (L : Layout) (hT : ¬ InStack (L "cctmp")) (b : Byte) : L "cctmp" ≠ Cpu.stackAddr b :=
+  fun e => hT ⟨b, e⟩
+
+theorem pushS_eqOff (L : Layout) (σ : SrcSt) (a : Byte) : EqOff L (pushS σ a) σ := by
+  refine ⟨rfl, rfl, ?_⟩
+  intro x hx
+  have : Cpu.stackAddr σ.sp ≠ x := fun e => hx (Or.inr ⟨σ.sp, e.symm⟩)
+  simp [pushS, this]
+
+theorem setTmp_eqOff (L : Layout) (σ : SrcSt) (a : Byte) : EqOff L (setTmp L σ a) σ := tmpStore_eqOff L σ a
+
+/-- the value an operand location denotes depends on the program's cells, the scratch cell and the accumulator -/
+theorem leftVal_eq (L : Layout) {σ1 σ : SrcSt} (a : Byte) (t : ET) (h : EqOff L σ1 σ)
+    (hc : σ1.mem.read (L "cctmp") = σ.mem.read (L "cctmp")) (hn : ∀ x, t = .atm x → NoTmp L x.names) :
+    leftVal L σ1 a t = leftVal L σ a t := by
+  cases t with
+  | atm x => exact rval_eqOff L h x (hn x rfl)
+  | tmp => exact hc
+  | acc => rfl
+
+theorem rval_opnd (L : Layout) (σ : SrcSt) (a : Byte) (t : ET) (h : t ≠ .acc) : rval L σ (opnd t) = leftVal L σ a t := by
+  cases t with
+  | atm x => rfl
+  | tmp => rfl
+  | acc => exact absurd rfl h
+
+theorem opnd_isReg (t : ET) : (opnd t).isReg = t.isReg := by
+  cases t <;> rfl
+
+theorem evalPlan_pure (L : Layout) (σ : SrcSt) (a : Byte) (op : BOp) (st : ES) (l rt : ET) (p : Plan)
+    (hT : ¬ InStack (L "cctmp")) (hp : plan st l op rt = some p)
+    (hl : ∀ x, l = .atm x → NoTmp L x.names) (hr : ∀ x, rt = .atm x → NoTmp L x.names)
+    (htm : (l = .tmp ∨ rt = .tmp) → st.tmpU = true) :
+    EqOff L (evalPlan L σ a op p).1 σ ∧
+    leftVal L (evalPlan L σ a op p).1 (evalPlan L σ a op p).2 (if p.save then .tmp else .acc)
+      = op.apply (leftVal L σ a l) (leftVal L σ a rt) ∧
+    (evalPlan L σ a op p).1.sp = σ.sp ∧
+    (st.acc = true → l ≠ .acc → rt ≠ .acc → (evalPlan L σ a op p).2 = a ∧ p.save = true) ∧
+    (st.tmpU = true → l ≠ .tmp → rt ≠ .tmp →
+      (evalPlan L σ a op p).1.mem.read (L "cctmp") = σ.mem.read (L "cctmp") ∧ p.save = false ∧ p.st'.tmpU = true) ∧
+    (p.save = true → p.st'.tmpU = true) ∧ p.st'.acc = true := by
+  unfold plan at hp
+  split at hp
+  case isFalse => cases hp
+  rename_i hok
+  cases hp
+  have hoc := order_cases op l rt
+  generalize hord : order op l rt = pr at hoc
+  obtain ⟨left, right⟩ := pr
+  have hmem : (left = l ∧ right = rt) ∨ ((left = rt ∧ right = l) ∧ op ≠ .sub) := by
+    rcases hoc with h | ⟨h, hne⟩
+    · cases h; exact Or.inl ⟨rfl, rfl⟩
+    · cases h; exact Or.inr ⟨⟨rfl, rfl⟩, hne⟩
+  have hval : op.apply (leftVal L σ a left) (leftVal L σ a right) = op.apply (leftVal L σ a l) (leftVal L σ a rt) := by
+    rcases hmem with ⟨h1, h2⟩ | ⟨⟨h1, h2⟩, hne⟩
+    · rw [h1, h2]
+    · rw [h1, h2]; exact apply_comm_ne_sub op _ _ hne
+  have hleft : ∀ x, left = .atm x → NoTmp L x.names := by
+    rcases hmem with ⟨h1, h2⟩ | ⟨⟨h1, h2⟩, _⟩ <;> rw [h1] <;> assumption
+  have hright : ∀ x, right = .atm x → NoTmp L x.names := by
+    rcases hmem with ⟨h1, h2⟩ | ⟨⟨h1, h2⟩, _⟩ <;> rw [h2] <;> assumption
+  have htm' : (left = .tmp ∨ right = .tmp) → st.tmpU = true := by
+    rcases hmem with ⟨h1, h2⟩ | ⟨⟨h1, h2⟩, _⟩
+    · rw [h1, h2]; exact htm
+    · rw [h1, h2]; exact fun h => htm h.symm
+  have hacc' : l ≠ .acc → rt ≠ .acc → left ≠ .acc ∧ right ≠ .acc := by
+    rcases hmem with ⟨h1, h2⟩ | ⟨⟨h1, h2⟩, _⟩ <;> rw [h1, h2] <;> intro h h' <;> exact ⟨by assumption, by assumption⟩
+  have htmp' : l ≠ .tmp → rt ≠ .tmp → left ≠ .tmp ∧ right ≠ .tmp := by
+    rcases hmem with ⟨h1, h2⟩ | ⟨⟨h1, h2⟩, _⟩ <;> rw [h1, h2] <;> intro h h' <;> exact ⟨by assumption, by assumption⟩
+  simp only [planOK, hord] at hok
+  rw [← hval]
+  by_cases hsp : right = .acc
+  · -- the right operand is in the accumulator: it goes to the scratch cell first
+    subst hsp
+    have htu : st.tmpU = false := by
+      cases h : st.tmpU
+      · rfl
+      · simp [h] at hok
+    have hlt : left ≠ .tmp := fun e => by have := htm' (Or.inl e); simp [htu] at this
+    have e0 : EqOff L (setTmp L σ a) σ := setTmp_eqOff L σ a
+    have hv : leftVal L (setTmp L σ a) a left = leftVal L σ a left := by
+      cases left with
+      | atm x => exact rval_eqOff L e0 x (hleft x rfl)
+      | tmp => exact absurd rfl hlt
+      | acc => rfl
+    have hno : tmpWrite L (setTmp L σ a) op (opnd ET.tmp) = setTmp L σ a := by simp [tmpWrite, opnd, RA.isReg]
+    simp only [mkPlan, hord, evalPlan, Plan.save, beq_self_eq_true, if_true, Bool.false_and, Bool.false_eq_true, if_false, hno, hv]
+    refine ⟨e0, ?_, rfl, ?_, ?_, by simp, trivial⟩
+    · simp [leftVal, rval, opnd, tmp, val, setTmp]
+    · intro _ h1 h2; exact absurd rfl (hacc' h1 h2).2
+    · intro h; simp [htu] at h
+  · -- no spill
+    have hspb : (right == ET.acc) = false := by cases right <;> simp_all
+    have hrv : ∀ τ : SrcSt, rval L τ (opnd right) = leftVal L τ a right := fun τ => rval_opnd L τ a right hsp
+    simp only [hspb, Bool.false_eq_true, if_false, Bool.false_and, Bool.not_false, Bool.true_and] at hok
+    simp only [mkPlan, hord, evalPlan, Plan.save, hspb, Bool.false_eq_true, if_false, hrv]
+    by_cases hsave : (st.acc && left != ET.acc) = true
+    · -- the accumulator holds an outer operand: PHA … STA cctmp ; PLA
+      simp only [hsave, if_true]
+      have e1 : EqOff L (pushS σ a) σ := pushS_eqOff L σ a
+      have hc1 : (pushS σ a).mem.read (L "cctmp") = σ.mem.read (L "cctmp") := by
+        have := (stackAddr_not_tmp L hT σ.sp).symm
+        simp [pushS, this]
+      have hvl := leftVal_eq L a left e1 hc1 hleft
+      have hvr := leftVal_eq L a right e1 hc1 hright
+      rw [hvl, hvr]
+      have hsp1 : ∀ τ : SrcSt, (tmpWrite L τ op (opnd right)).sp = τ.sp := by
+        intro τ; unfold tmpWrite; split <;> rfl
+      have e2 : EqOff L (tmpWrite L (pushS σ a) op (opnd right)) σ := (tmpWrite_eqOff L _ op _).trans e1
+      have hpull : ∀ v, ((tmpWrite L (pushS σ a) op (opnd right)).mem.write (L "cctmp") v).read (Cpu.stackAddr σ.sp) = a := by
+        intro v
+        have hne := stackAddr_not_tmp L hT σ.sp
+        rw [Mem.read_write_other _ _ _ _ hne]
+        unfold tmpWrite
+        split
+        · rw [Mem.read_write_other _ _ _ _ hne]; simp [pushS]
+        · simp [pushS]
+      have hspp : (pushS σ a).sp + 1 = σ.sp := by
+        show σ.sp - 1 + 1 = σ.sp
+        bv_omega
+      refine ⟨?_, ?_, ?_, ?_, ?_, by simp, trivial⟩
+      · simp only [pullS, setTmp]
+        exact (tmpStore_eqOff L _ _).trans e2 |> fun h => ⟨h.1, h.2.1, h.2.2⟩
+      · simp [pullS, setTmp, leftVal]
+      · simp only [pullS, setTmp, hsp1]; exact hspp
+      · intro _ _ _
+        refine ⟨?_, trivial⟩
+        simp only [pullS, setTmp, hsp1, hspp]
+        exact hpull _
+      · intro htu h1 h2
+        obtain ⟨k1, k2⟩ := htmp' h1 h2
+        have : (left == ET.tmp) = false := by cases left <;> simp_all
+        have : (right == ET.tmp) = false := by cases right <;> simp_all
+        simp_all
+    · have hsv : (st.acc && left != ET.acc) = false := by simpa using hsave
+      simp only [hsv, Bool.false_eq_true, if_false]
+      refine ⟨tmpWrite_eqOff L σ op _, rfl, ?_, ?_, ?_, by simp, trivial⟩
+      · unfold tmpWrite; split <;> rfl
+      · intro h1 h2 h3
+        have := (hacc' h2 h3).1
+        have : (left != ET.acc) = true := by cases left <;> simp_all
+        simp_all
+      · intro htu h1 h2
+        obtain ⟨k1, k2⟩ := htmp' h1 h2
+        have hlb : (left == ET.tmp) = false := by cases left <;> simp_all
+        have hrb : (right == ET.tmp) = false := by cases right <;> simp_all
+        simp only [hlb, hrb, htu, Bool.false_eq_true, if_false, Bool.and_true, Bool.not_eq_true', hsv, Bool.false_and, Bool.not_false, Bool.true_and] at hok
+        have hnr : (opnd right).isReg = false := by rw [opnd_isReg]; simp_all
+        refine ⟨?_, trivial, by simp [hlb, hrb, htu]⟩
+        simp [tmpWrite, hnr]
+
+/-- every expression tree the generator accepts: the run specified step by step (`evalE`: scratch cell, pushes and
+    pulls) ends with the plain value of the tree where the generator says it is, and with every live value kept:
+    the accumulator when it held an outer operand, the scratch cell when it was taken -/
+theorem evalE_pure (L : Layout) (τ : SrcSt) : ∀ (e : GExpr) (σ : SrcSt) (a : Byte) (st : ES) (q : SrcSt × Byte) (t : ET) (st' : ES),
+    EqOff L σ τ → NoTmp L (gexprNames e) → evalE L σ a st e = some (q, t, st') →
+    EqOff L q.1 σ ∧ leftVal L q.1 q.2 t = pureE L τ e ∧
+    (∀ x, t = .atm x → NoTmp L x.names) ∧
+    (st.acc = true → q.2 = a ∧ t ≠ .acc ∧ st'.acc = true) ∧
+    (st.tmpU = true → q.1.mem.read (L "cctmp") = σ.mem.read (L "cctmp") ∧ t ≠ .tmp ∧ st'.tmpU = true) ∧
+    (t = .tmp → st'.tmpU = true) ∧ (t = .acc → st'.acc = true) := by
+  intro e
+  induction e with
+  | atom x =>
+    intro σ a st q t st' h hn hev
+    simp only [evalE, Option.some.injEq, Prod.mk.injEq] at hev
+    obtain ⟨hq, ht, hs⟩ := hev
+    subst hq; subst ht; subst hs
+    refine ⟨EqOff.refl L σ, rval_eqOff L h x hn, ?_, ?_, ?_, ?_, ?_⟩
+    · intro y hy; cases hy; exact hn
+    · intro hacc; exact ⟨rfl, (by intro e; cases e), hacc⟩
+    · intro htu; exact ⟨rfl, (by intro e; cases e), htu⟩
+    · intro e; cases e
+    · intro e; cases e
+  | bin l op rr ihl ihr =>
+    intro σ a st q t st' h hn hev
+    simp only [evalE] at hev
+    cases hl : evalE L σ a st l with
+    | none => simp [hl] at hev
+    | some x =>
+      obtain ⟨⟨σ1, a1⟩, tl, s1⟩ := x
+      simp only [hl] at hev
+      cases hr : evalE L σ1 a1 s1 rr with
+      | none => simp [hr] at hev
+      | some y =>
+        obtain ⟨⟨σ2, a2⟩, tr, s2⟩ := y
+        simp only [hr, evalArithm, Option.map_eq_some_iff] at hev
+        obtain ⟨p, hp, hpe⟩ := hev
+        simp only [Prod.mk.injEq] at hpe
+        obtain ⟨hq, ht, hst⟩ := hpe
+        obtain ⟨l1, l2, l3, l4, l5, l6, l7⟩ := ihl σ a st _ _ _ h (NoTmp.left hn) hl
+        have h1 : EqOff L σ1 τ := l1.trans h
+        obtain ⟨r1, r2, r3, r4, r5, r6, r7⟩ := ihr σ1 a1 s1 _ _ _ h1 (NoTmp.right hn) hr
+        simp only at l1 l2 l4 l5 r1 r2 r4 r5
+        -- the left operand's value is still where it was put
+        have hkeep : leftVal L σ2 a2 tl = pureE L τ l := by
+          rw [← l2]
+          cases tl with
+          | atm x => exact rval_eqOff L r1 x (l3 x rfl)
+          | tmp => exact (r5 (l6 rfl)).1
+          | acc => exact (r4 (l7 rfl)).1
+        have htm : (tl = .tmp ∨ tr = .tmp) → s2.tmpU = true := by
+          rintro (e | e)
+          · exact (r5 (l6 e)).2.2
+          · exact r6 e
+        obtain ⟨p1, p2, p3, p4, p5, p6, p7⟩ := evalPlan_pure L σ2 a2 op s2 tl tr p hn.1 hp l3 r3 htm
+        subst hq; subst ht; subst hst
+        refine ⟨(p1.trans r1).trans l1, ?_, ?_, ?_, ?_, ?_, ?_⟩
+        · rw [p2, hkeep, r2]; rfl
+        · intro x hx; split at hx <;> cases hx
+        · intro hacc
+          obtain ⟨e1, e2, e3⟩ := l4 hacc
+          obtain ⟨f1, f2, f3⟩ := r4 e3
+          obtain ⟨g1, g2⟩ := p4 f3 e2 f2
+          exact ⟨by rw [g1, f1, e1], (by rw [g2]; intro e; cases e), p7⟩
+        · intro htu
+          obtain ⟨e1, e2, e3⟩ := l5 htu
+          obtain ⟨f1, f2, f3⟩ := r5 e3
+          obtain ⟨g1, g2, g3⟩ := p5 f3 e2 f2
+          exact ⟨by rw [g1, f1, e1], (by rw [g2]; intro e; cases e), g3⟩
+        · intro e
+          by_cases hs : p.save = true
+          · exact p6 hs
+          · simp [hs] at e
+        · intro _; exact p7
+
+/-- the step-by-step specification is defined wherever the generator goes through -/
+theorem evalE_defined {α : Type} (n : α) (r : Atom → α) (L : Layout) : ∀ (e : GExpr) (st : ES) (c : List (Mn × α)) (t : ET) (st' : ES)
+    (σ : SrcSt) (a : Byte), genE n r st e = some (c, t, st') → ∃ q, evalE L σ a st e = some (q, t, st') := by
+  intro e
+  induction e with
+  | atom x =>
+    intro st c t st' σ a h
+    simp only [genE, Option.some.injEq, Prod.mk.injEq] at h
+    exact ⟨(σ, a), by simp [evalE, h.2.1, h.2.2]⟩
+  | bin l op rr ihl ihr =>
+    intro st c t st' σ a h
+    simp only [genE] at h
+    cases hl : genE n r st l with
+    | none => simp [hl] at h
+    | some x =>
+      obtain ⟨cl, tl, s1⟩ := x
+      simp only [hl] at h
+      cases hr : genE n r s1 rr with
+      | none => simp [hr] at h
+      | some y =>
+        obtain ⟨cr, tr, s2⟩ := y
+        simp only [hr, arithm] at h
+        cases hp : plan s2 tl op tr with
+        | none => simp [hp] at h
+        | some p =>
+          simp only [hp, Option.map_some, Option.some.injEq, Prod.mk.injEq] at h
+          obtain ⟨q1, e1⟩ := ihl st cl tl s1 σ a hl
+          obtain ⟨q2, e2⟩ := ihr s1 cr tr s2 q1.1 q1.2 hr
+          refine ⟨evalPlan L q2.1 q2.2 op p, ?_⟩
+          simp only [evalE, e1, e2, evalArithm, hp, Option.map_some, h.2.1, h.2.2]
+
 /-- one statement: the specification with scratch cell and the plain reading agree off the scratch cell -/
 theorem rspec_pure (L : Layout) {σ τ : SrcSt} (h : EqOff L σ τ) (st : RStmt) (hn : NoTmp L st.names) :
     EqOff L (rspec L σ st) (pureSpec L τ st) := by
@@ -368,6 +655,30 @@ theorem rspec_pure (L : Layout) {σ τ : SrcSt} (h : EqOff L σ τ) (st : RStmt)
     simp only [rspec, pureSpec]
     rw [rval_eqOff L h v.ra (by rw [ra_names_lv]; exact hn)]
     exact wr_eqOff L h v _
+  | expr v e =>
+    simp only [rspec, pureSpec, exprSpec]
+    by_cases hok : e.ok = true
+    · simp only [hok, if_true]
+      have hg : ∃ c st', genE () (fun _ => ()) {} e = some (c, .acc, st') := by
+        cases e with
+        | atom x => simp [GExpr.ok] at hok
+        | bin l op rr =>
+          simp only [GExpr.ok] at hok
+          split at hok
+          · rename_i c st' hg; exact ⟨c, st', hg⟩
+          · cases hok
+      obtain ⟨c, st0, hg⟩ := hg
+      obtain ⟨q, hq⟩ := evalE_defined () (fun _ => ()) L e {} c .acc st0 σ 0 hg
+      rw [hq]
+      obtain ⟨p1, p2, _⟩ := evalE_pure L τ e σ 0 {} q .acc st0 h (NoTmp.right hn) hq
+      obtain ⟨σ', a'⟩ := q
+      simp only [leftVal] at p2
+      simp only
+      rw [p2]
+      exact wr_eqOff L (p1.trans h) v _
+    · have : e.ok = false := by simpa using hok
+      simp only [this, Bool.false_eq_true, if_false]
+      exact h
   | lin v e =>
     simp only [rspec, pureSpec]
     obtain ⟨e1, e2⟩ := linVal_pure L e h (NoTmp.right hn)
@@ -380,11 +691,12 @@ theorem rspec_pure (L : Layout) {σ τ : SrcSt} (h : EqOff L σ τ) (st : RStmt)
     have ho : NoTmp L (ops.flatMap fun p => p.2.names) := NoTmp.right hn
     have hr := rordered_names L op1 a b1 ha hb
     have hall : NoTmp L (((op1, (rordered op1 a b1).2) :: ops).flatMap fun p => p.2.names) := by
+      refine ⟨hn.1, ?_⟩
       intro x hx
       simp only [List.flatMap_cons, List.mem_append] at hx
       rcases hx with hx | hx
-      · exact hr.2 x hx
-      · exact ho x hx
+      · exact hr.2.2 x hx
+      · exact ho.2 x hx
     rw [rval_eqOff L h (rordered op1 a b1).1 hr.1]
     obtain ⟨e1, e2⟩ := chainVal_pure L ((op1, (rordered op1 a b1).2) :: ops) h (rval L τ (rordered op1 a b1).1) hall
     rw [e1]
@@ -407,8 +719,8 @@ theorem rspec_pure (L : Layout) {σ τ : SrcSt} (h : EqOff L σ τ) (st : RStmt)
   | opasgW s op a =>
     simp only [rspec, pureSpec]
     have hs : NoTmp L [Atom.var s, Atom.el s (.k 1)] := NoTmp.left (NoTmp.left hn)
-    exact binWSpec_eqOff L h s op (.wvar s) a (fun v hv => hs v (by simp [WA.lo, Atom.names] at hv; simp [hv]))
-      (fun v hv => hs v (by simp [WA.hi, Atom.names] at hv; simp [hv])) (NoTmp.right (NoTmp.left hn)) (NoTmp.right hn)
+    exact binWSpec_eqOff L h s op (.wvar s) a ⟨hn.1, fun v hv => hs.2 v (by simp [WA.lo, Atom.names] at hv; simp [hv])⟩
+      ⟨hn.1, fun v hv => hs.2 v (by simp [WA.hi, Atom.names] at hv; simp [hv])⟩ (NoTmp.right (NoTmp.left hn)) (NoTmp.right hn)
 
 theorem evalCond_eqOff (L : Layout) {σ τ : SrcSt} (h : EqOff L σ τ) (c : Cond) (hn : NoTmp L c.names) :
     evalCond L σ c = evalCond L τ c := by
@@ -443,6 +755,7 @@ theorem sem_pure_both (L : Layout) : ∀ (f : Nat),
       cases st with
       | flat s => simp only [sem, semPure]; exact ⟨rfl, rspec_pure L h s hn⟩
       | skip => simp only [sem, semPure]; exact ⟨rfl, h⟩
+      | forget => simp only [sem, semPure]; exact ⟨rfl, h⟩
       | brk => simp only [sem, semPure]; exact ⟨rfl, h⟩
       | cont => simp only [sem, semPure]; exact ⟨rfl, h⟩
       | ifBrk c => simp only [sem, semPure]; exact ⟨by rw [evalCond_eqOff L h c hn], h⟩
